@@ -767,5 +767,34 @@ class Extractor:
         it.variants = [re.match(r"\s*([A-Za-z_0-9]+)", l).group(1) for l in lines]
         return it
 
+    def arm_body(self, file, fn_name, start_lit, name=None, after=None, nth=1):
+        """Inner text of the `{ .. }` block that follows `=>` after the first occurrence of start_lit inside fn fn_name
+        (the body of a match arm).  Everything else of the function is dropped (stated in the evidence)."""
+        src = self.read(file)
+        toks, idx = self._find_item(src, "fn", fn_name, after, nth)
+        if idx is None:
+            raise ExtractionError("anchor lost: fn %s in %s" % (fn_name, file))
+        s, e = self._item_span(src, toks, idx)
+        p = src.find(start_lit, s, e)
+        if p < 0:
+            raise ExtractionError("arm pattern lost: %r in fn %s (%s)" % (start_lit, fn_name, file))
+        arrow = None
+        for k, (kind, a, b) in enumerate(toks):
+            if a >= p and kind == "punct" and src[a:a + 2] == "=>":
+                arrow = k
+                break
+        if arrow is None:
+            raise ExtractionError("arm `=>` not found after %r" % start_lit)
+        for k in range(arrow, len(toks)):
+            kind, a, b = toks[k]
+            if kind == "punct" and src[a] == "{":
+                close = match_brace(src, toks, k)
+                it = Item(self, file, name or (fn_name + "_arm"), src[toks[k][2]:toks[close][1]],
+                          line_of(src, toks[k][2]), line_of(src, toks[close][1]), "slice")
+                it.dropped = "rest of fn %s (lines %d-%d) outside the match arm `%s`" % (
+                    fn_name, line_of(src, s), line_of(src, e), start_lit)
+                return it
+        raise ExtractionError("arm block not found")
+
     def describe(self):
         return [i.describe() for i in self.items]
